@@ -114,13 +114,14 @@ def gen(ctx):
 
 
 def run(ctx):
-    tr, V = gen(ctx)
+    g = ctx.guard("regenerate", gen, ctx)
     ok = ctx.lean_build(["HitenModel.Props.C01"])
     if ok:
         ctx.lean_audit(["HitenModel.Props.C01"], ["HitenModel.Props.C01", "HitenModel.Gen.C01", "HitenModel.Lemmas.REReal", "HitenModel.Core.RE"])
         if ctx.thorough():
             ctx.leanchecker(["HitenModel.Props.C01"])
-    validate_traces(ctx, tr, V)
+    if g is not None:
+        ctx.guard("validate_traces", validate_traces, ctx, g[0], g[1])
     numerics(ctx)
     ctx.rule = ("random (mu log-uniform in [1e-9,0.5], 6-D states in a box around the primaries excluding balls of radius 0.02, "
                 "planar and spatial); a case is non-trivial when z!=0 or vz!=0 or it is a propagation; distinct by rounded input")
